@@ -49,7 +49,7 @@ table = ("Changes written by sub-agents that saw only the property text (section
          "first use versus later uses of an object, one error kind out of several classified wrongly, keys with a component dropped or\n"
          "truncated, ties among equal elements). Ids with -r7- are from a seventh round of one change per property, which had to be in a\n"
          "source file no earlier change for that property had touched (the same round asked for inputs on which the unchanged tree\n"
-         "already breaks the statement: section 6.1, D16-D22, and section 6.3). `caught by` names the check(s) whose quick tier\n"
+         "already breaks the statement: section 6.1, D16-D22, and section 6.4). `caught by` names the check(s) whose quick tier\n"
          "reports a VIOLATION with the patch applied to /repo; \"as built\" means some check caught it before anything was\n"
          "changed, \"after strengthening\" that every check missed it at first and the owning check was extended (what was\n"
          "added is in the section 3 notes and in meta.json). Caught as built: round 1 %d of %d, round 2 %d of %d, round 3\n"
